@@ -1,6 +1,7 @@
 pub mod c01;
 pub mod c01_carriers;
 pub mod c02;
+pub mod c02_e2e;
 pub mod c03;
 pub mod c04;
 pub mod c05;
